@@ -276,7 +276,16 @@ impl Grid {
             prev_pos = new_pos;
             prev_attrs = new_attrs;
             wrapping = row.wrapped();
-            prev_wrapping = prev_row.wrapped();
+            // drawing over a wide character which ends in the last column
+            // makes the terminal forget that the row was wrapped
+            let unwrapped = self.size.cols >= 2
+                && prev_row
+                    .get(self.size.cols - 2)
+                    .is_some_and(crate::Cell::is_wide)
+                && !row
+                    .get(self.size.cols - 2)
+                    .is_some_and(crate::Cell::has_contents);
+            prev_wrapping = prev_row.wrapped() && !unwrapped;
         }
 
         self.write_cursor_position_formatted(
